@@ -11,7 +11,7 @@ From Coq Require Import List NArith Bool Arith Lia.
 Import ListNotations.
 From PV Require Import Regex Base AstDefs AstSpec AstImpl GenTables NodeModel Generator ClimbProofs ClimbComplete GenParen GenBinop.
 From PV Require Import LexTables ParserTables PyRepr ParserBase ParserDecl ParserMain LexerProofs TableProofs.
-From PV Require Import BinaryRefine ExprShape UnaryShape CoordProofs ElseProofs StmtShape StreamLib RoundTrip RoundTripGen RoundTripX.
+From PV Require Import BinaryRefine ExprShape UnaryShape CoordProofs ElseProofs StmtShape StreamLib RoundTrip RoundTripGen RoundTripX TypeName DeclTrip.
 Open Scope nat_scope.
 
 Inductive st :=
@@ -26,7 +26,8 @@ Inductive st :=
 | SDo (b: st) (c: ex)
 | SFor (i c n: option ex) (b: st)
 | SBlock (items: list st)
-| SLabel (l: str) (b: st).
+| SLabel (l: str) (b: st)
+| SDecl (ty: list (kind * str)) (x: str) (i: option ex).   (* T x; / T x = e;  - a block item only *)
 
 (* does the statement end in an if without else? *)
 Fixpoint sopen (x: st) : bool :=
@@ -38,19 +39,28 @@ Fixpoint sopen (x: st) : bool :=
   end.
 
 Definition owf (o: option ex) : Prop := match o with Some e => wf e | None => True end.
-Fixpoint swf (x: st) : Prop :=
+Definition dwf (dok: bool) (ty: list (kind * str)) (x: str) (i: option ex) : Prop :=
+  dok = true /\ ty <> [] /\ Forall (fun kv => kind_in (fst kv) tbl_TYPE_SPEC_SIMPLE = true) ty /\ owf i /\ x <> [].
+(* [dok]: are declarations allowed as block items?  (they need a scope stack without typedef names) *)
+Fixpoint swfd (dok: bool) (x: st) : Prop :=
   match x with
   | SExpr e => wf e
   | SReturn o => owf o
-  | SIf c th el => wf c /\ swf th /\ match el with Some e => sopen th = false /\ swf e | None => True end
-  | SWhile c b => wf c /\ swf b
-  | SDo b c => swf b /\ wf c
-  | SFor i c n b => owf i /\ owf c /\ owf n /\ swf b
-  | SLabel _ b => swf b
-  | SBlock items => (fix wl (l: list st) : Prop := match l with [] => True | y :: r => swf y /\ wl r end) items
+  | SIf c th el => wf c /\ swfd dok th /\ match el with Some e => sopen th = false /\ swfd dok e | None => True end
+  | SWhile c b => wf c /\ swfd dok b
+  | SDo b c => swfd dok b /\ wf c
+  | SFor i c n b => owf i /\ owf c /\ owf n /\ swfd dok b
+  | SLabel _ b => swfd dok b
+  | SBlock items => (fix wl (l: list st) : Prop :=
+                       match l with [] => True | y :: r => match y with SDecl ty dx i => dwf dok ty dx i | _ => swfd dok y end /\ wl r end) items
+  | SDecl _ _ _ => False
   | _ => True
   end.
-Definition swfl (l: list st) : Prop := (fix wl (l: list st) : Prop := match l with [] => True | y :: r => swf y /\ wl r end) l.
+Definition bwfd (dok: bool) (y: st) : Prop := match y with SDecl ty dx i => dwf dok ty dx i | _ => swfd dok y end.
+Definition swfl (dok: bool) (l: list st) : Prop := (fix wl (l: list st) : Prop := match l with [] => True | y :: r => bwfd dok y /\ wl r end) l.
+(* statements without declarations, and statements whose blocks may declare objects *)
+Definition swf (x: st) : Prop := swfd false x.
+Definition swfD (x: st) : Prop := swfd true x.
 
 Fixpoint ssize (x: st) : nat :=
   match x with
@@ -75,6 +85,7 @@ Fixpoint embs (x: st) : value unit :=
   | SFor i c n b => VNode C_For [oemb i; oemb c; oemb n; embs b] None
   | SBlock items => VNode C_Compound [match items with [] => VNone | _ => VList (map embs items) end] None
   | SLabel l b => VNode C_Label [VStr l; embs b] None
+  | SDecl ty x i => dembed ty x (oemb i)
   end.
 
 Section STK.
@@ -96,6 +107,7 @@ Fixpoint stoks (x: st) : list (kind * str) :=
   | SFor i c n b => kw K_FOR "for" :: kw K_LPAREN "(" :: oxt i ++ kw K_SEMI ";" :: oxt c ++ kw K_SEMI ";" :: oxt n ++ kw K_RPAREN ")" :: stoks b
   | SBlock items => kw K_LBRACE "{" :: concat (map stoks items) ++ [kw K_RBRACE "}"]
   | SLabel l b => (K_ID, l) :: kw K_COLON ":" :: stoks b
+  | SDecl ty x i => dtoks ty x (match i with Some e => (K_EQUALS, s2l "=") :: argt rp e | None => [] end)
   end.
 End STK.
 
@@ -119,6 +131,14 @@ Notation pstate := (ParserBase.pstate P).
 Notation tok := (ParserBase.tok P).
 Notation Up := (StreamLib.Up P).
 Notation Spell := (RoundTrip.Spell P).
+(* what is assumed of the parser state in front of a statement: nothing ([pre] trivially true, [dok] false: statements
+   without declarations), or a scope stack without typedef names ([dok] true: blocks may declare objects) *)
+Variable pre : pstate -> Prop.
+Hypothesis pre_SC : forall s s', pre s -> SC P s s' -> pre s'.
+Variable dok : bool.
+Hypothesis pre_notd : dok = true -> forall s, pre s -> StreamLib.NoTD (scopes P s).
+Ltac pre_tac := match goal with Hpre: pre ?s0 |- pre ?s1 => apply (pre_SC s0 s1 Hpre); cost_tac end.
+Set Default Proof Using "P pre pre_SC dok pre_notd".
 
 Lemma stmt_eq : forall f,
   p_statement P (S f) =
@@ -134,7 +154,7 @@ Lemma stmt_eq : forall f,
     else if okind_is k K_PPPRAGMA || okind_is k K_uPRAGMA then p_pppragma_directive P f
     else if okind_is k K_uSTATIC_ASSERT then bind P (p_static_assert P f) (fun l => match l with x :: _ => ret P x | [] => crash P CK_Index end)
     else p_expression_statement P f)).
-Proof. reflexivity. Qed.
+Proof using P. reflexivity. Qed.
 
 Lemma pcs_eq : forall f,
   p_pragmacomp_or_statement P (S f) =
@@ -146,7 +166,7 @@ Lemma pcs_eq : forall f,
       | [] => crash P CK_Index
       end))
     else p_statement P f).
-Proof. reflexivity. Qed.
+Proof using P. reflexivity. Qed.
 
 (* a statement that does not start with an identifier *)
 Lemma dispatch_kw : forall (s: pstate) t l, Up s (t :: l) -> kind_eqb (tk t) K_ID = false ->
@@ -215,7 +235,7 @@ Lemma iter_eq : forall f,
         bind P (expect P K_SEMI) (fun _ => bind P (p_expression_opt P f) (fun nx => bind P (expect P K_RPAREN) (fun _ =>
         bind P (p_pragmacomp_or_statement P f) (fun st => bind P (tcoord P t) (fun c => ret P (mkN P C_For [init; cond; nx; st] c)))))))))))
     else bind P (tok_coord P t) (fun c => fail P (L_coord P c) (s2l "Invalid iteration statement"))).
-Proof. reflexivity. Qed.
+Proof using P. reflexivity. Qed.
 
 Lemma jump_eq : forall f,
   p_jump_statement P (S f) =
@@ -231,7 +251,7 @@ Lemma jump_eq : forall f,
       | None => bind P (p_expression P f) (fun e => bind P (expect P K_SEMI) (fun _ => bind P (tcoord P t) (fun c => ret P (mkN P C_Return [e] c))))
       end)
     else bind P (tok_coord P t) (fun c => fail P (L_coord P c) (s2l "Invalid jump statement"))).
-Proof. reflexivity. Qed.
+Proof using P. reflexivity. Qed.
 
 Lemma exprstmt_eq : forall f,
   p_expression_statement P (S f) =
@@ -240,14 +260,14 @@ Lemma exprstmt_eq : forall f,
   | VNone => bind P (tcoord P sm) (fun c => ret P (mkN P C_EmptyStatement [] c))
   | _ => ret P e
   end)).
-Proof. reflexivity. Qed.
+Proof using P. reflexivity. Qed.
 
 Lemma expropt_eq : forall f, p_expression_opt P (S f) =
   bind P (starts_expression P) (fun se => if se then p_expression P f else ret P VNone).
-Proof. reflexivity. Qed.
+Proof using P. reflexivity. Qed.
 
 Lemma tcoord_eq : forall (t: tok) (s: pstate), tcoord P t s = Ok (Some (mkCoord P (curfile P s) (tp t)), s).
-Proof. reflexivity. Qed.
+Proof using P. reflexivity. Qed.
 
 (* an optional expression: present (starts an expression) or absent (the next token does not) *)
 Definition sestart (k: kind) : bool := kind_in k tbl_STARTS_EXPRESSION.
@@ -275,7 +295,7 @@ Qed.
 
 (* ---- the statement level ---- *)
 Definition StmtL (run: nat -> M P (ParserBase.node P)) (kvs: list (kind * str)) (X: value unit) (op: bool) : Prop :=
-  forall (s: pstate) le (stop: tok) l0, Spell le kvs -> Up s (le ++ stop :: l0) -> (op = true -> kind_eqb (tk stop) K_ELSE = false) ->
+  forall (s: pstate) le (stop: tok) l0, Spell le kvs -> Up s (le ++ stop :: l0) -> (op = true -> kind_eqb (tk stop) K_ELSE = false) -> pre s ->
   exists f0 N s', (forall f, f0 <= f -> run f s = Ok (N, s')) /\ Up s' (stop :: l0) /\ strip N = X /\ Ran P s s' (length le).
 Definition StmtS := StmtL (p_pragmacomp_or_statement P).     (* a sub-statement position *)
 Definition StmtS0 := StmtL (p_statement P).                   (* a block item *)
@@ -285,10 +305,10 @@ Definition nopragma (kvs: list (kind * str)) : Prop :=
   exists k v rest, kvs = (k, v) :: rest /\ (okind_is (Some k) K_PPPRAGMA || okind_is (Some k) K_uPRAGMA) = false.
 Lemma s0_to_s : forall kvs X op, nopragma kvs -> StmtS0 kvs X op -> StmtS kvs X op.
 Proof.
-  intros kvs X op [k [v [rest [Ek Hnp]]]] H0 s le stop l0 HS HU Hop.
+  intros kvs X op [k [v [rest [Ek Hnp]]]] H0 s le stop l0 HS HU Hop Hpre.
   pose proof HS as HS0. rewrite Ek in HS. destruct (RoundTrip.Spell_cons_inv P _ _ _ _ HS) as [t [tl [El [Hk [_ _]]]]]. subst le.
   cbn [app] in HU. rewrite <- Hk in Hnp. destruct (pcs_stmt s t _ HU Hnp) as [s0 [HU0 [HCd Hd]]].
-  destruct (H0 s0 (t :: tl) stop l0 HS0 HU0 Hop) as [f0 [N [s1 [H1 [HU1 [HN HL1]]]]]].
+  destruct (H0 s0 (t :: tl) stop l0 HS0 HU0 Hop ltac:(pre_tac)) as [f0 [N [s1 [H1 [HU1 [HN HL1]]]]]].
   exists (S f0), N, s1. split; [|split; [exact HU1|split; [exact HN|cost_tac]]]. intros f Hf. destruct f as [|f]; [lia|]. rewrite Hd. apply H1. lia.
 Qed.
 
@@ -316,7 +336,7 @@ Qed.
 
 Lemma s_expr : forall kx X c fs co, X = VNode c fs co -> ExprS P kx X -> good2 (kx ++ [kw K_SEMI ";"]) -> StmtS0 (kx ++ [kw K_SEMI ";"]) X false.
 Proof.
-  intros kx X c fs co EX HE Hg s le stop l0 HS HU _.
+  intros kx X c fs co EX HE Hg s le stop l0 HS HU _ Hpre.
   destruct (dispatch_expr _ s le (stop :: l0) HS Hg HU) as [s1 [HU1 [HCd Hd]]].
   destruct (RoundTrip.Spell_app_inv P _ _ _ HS) as [lx [l2 [-> [HSx HS2]]]].
   destruct (RoundTrip.Spell_cons_inv P _ _ _ _ HS2) as [sm [l3 [-> [Hsk [_ HS3]]]]]. apply (RoundTrip.Spell_nil_inv P) in HS3. subst l3.
@@ -347,7 +367,7 @@ Proof. intros k0 s t l HU <- H1. apply dispatch_kw; assumption. Qed.
 
 Lemma s_empty : StmtS0 [kw K_SEMI ";"] (VNode C_EmptyStatement [] None) false.
 Proof.
-  intros s le stop l0 HS HU _. destruct (RoundTrip.Spell_cons_inv P _ _ _ _ HS) as [sm [l2 [-> [Hk [_ HS2]]]]]. apply (RoundTrip.Spell_nil_inv P) in HS2. subst l2.
+  intros s le stop l0 HS HU _ Hpre. destruct (RoundTrip.Spell_cons_inv P _ _ _ _ HS) as [sm [l2 [-> [Hk [_ HS2]]]]]. apply (RoundTrip.Spell_nil_inv P) in HS2. subst l2.
   cbn [app] in HU. destruct (disp_kw K_SEMI s sm _ HU Hk eq_refl) as [s1 [HU1 [HCd Hd]]]. cbv iota beta in Hd.
   change (sclass K_SEMI) with 8 in Hd. cbv iota in Hd.
   assert (Hns: sestart (tk sm) = false) by (rewrite Hk; reflexivity).
@@ -383,7 +403,7 @@ Qed.
 
 Lemma s_break : StmtS0 [kw K_BREAK "break"; kw K_SEMI ";"] (VNode C_Break [] None) false.
 Proof.
-  intros s le stop l0 HS HU _. destruct (RoundTrip.Spell_cons_inv P _ _ _ _ HS) as [t [l2 [-> [Hk [_ HS2]]]]].
+  intros s le stop l0 HS HU _ Hpre. destruct (RoundTrip.Spell_cons_inv P _ _ _ _ HS) as [t [l2 [-> [Hk [_ HS2]]]]].
   destruct (RoundTrip.Spell_cons_inv P _ _ _ _ HS2) as [sm [l3 [-> [Hsk [_ HS3]]]]]. apply (RoundTrip.Spell_nil_inv P) in HS3. subst l3.
   cbn [app] in HU. destruct (jump_start K_BREAK s t _ HU Hk eq_refl) as [s2 [HU2 [HCd Hd]]].
   assert (Hsmk: kind_eqb (tk sm) K_SEMI = true) by (rewrite Hsk; reflexivity).
@@ -394,7 +414,7 @@ Qed.
 
 Lemma s_continue : StmtS0 [kw K_CONTINUE "continue"; kw K_SEMI ";"] (VNode C_Continue [] None) false.
 Proof.
-  intros s le stop l0 HS HU _. destruct (RoundTrip.Spell_cons_inv P _ _ _ _ HS) as [t [l2 [-> [Hk [_ HS2]]]]].
+  intros s le stop l0 HS HU _ Hpre. destruct (RoundTrip.Spell_cons_inv P _ _ _ _ HS) as [t [l2 [-> [Hk [_ HS2]]]]].
   destruct (RoundTrip.Spell_cons_inv P _ _ _ _ HS2) as [sm [l3 [-> [Hsk [_ HS3]]]]]. apply (RoundTrip.Spell_nil_inv P) in HS3. subst l3.
   cbn [app] in HU. destruct (jump_start K_CONTINUE s t _ HU Hk eq_refl) as [s2 [HU2 [HCd Hd]]].
   assert (Hsmk: kind_eqb (tk sm) K_SEMI = true) by (rewrite Hsk; reflexivity).
@@ -405,7 +425,7 @@ Qed.
 
 Lemma s_goto : forall l, StmtS0 [kw K_GOTO "goto"; (K_ID, l); kw K_SEMI ";"] (VNode C_Goto [VStr l] None) false.
 Proof.
-  intros lbl s le stop l0 HS HU _. destruct (RoundTrip.Spell_cons_inv P _ _ _ _ HS) as [t [l2 [-> [Hk [_ HS2]]]]].
+  intros lbl s le stop l0 HS HU _ Hpre. destruct (RoundTrip.Spell_cons_inv P _ _ _ _ HS) as [t [l2 [-> [Hk [_ HS2]]]]].
   destruct (RoundTrip.Spell_cons_inv P _ _ _ _ HS2) as [nt [l3 [-> [Hnk [Hnv HS3]]]]].
   destruct (RoundTrip.Spell_cons_inv P _ _ _ _ HS3) as [sm [l4 [-> [Hsk [_ HS4]]]]]. apply (RoundTrip.Spell_nil_inv P) in HS4. subst l4.
   cbn [app] in HU. destruct (jump_start K_GOTO s t _ HU Hk eq_refl) as [s2 [HU2 [HCd Hd]]].
@@ -420,7 +440,7 @@ Qed.
 
 Lemma s_return0 : StmtS0 [kw K_RETURN "return"; kw K_SEMI ";"] (VNode C_Return [VNone] None) false.
 Proof.
-  intros s le stop l0 HS HU _. destruct (RoundTrip.Spell_cons_inv P _ _ _ _ HS) as [t [l2 [-> [Hk [_ HS2]]]]].
+  intros s le stop l0 HS HU _ Hpre. destruct (RoundTrip.Spell_cons_inv P _ _ _ _ HS) as [t [l2 [-> [Hk [_ HS2]]]]].
   destruct (RoundTrip.Spell_cons_inv P _ _ _ _ HS2) as [sm [l3 [-> [Hsk [_ HS3]]]]]. apply (RoundTrip.Spell_nil_inv P) in HS3. subst l3.
   cbn [app] in HU. destruct (jump_start K_RETURN s t _ HU Hk eq_refl) as [s2 [HU2 [HCd Hd]]].
   assert (Hsmk: kind_eqb (tk sm) K_SEMI = true) by (rewrite Hsk; reflexivity).
@@ -432,7 +452,7 @@ Qed.
 Lemma s_return1 : forall kx X, (exists k v rest, kx = (k, v) :: rest /\ sestart k = true) -> ExprS P kx X ->
   StmtS0 (kw K_RETURN "return" :: kx ++ [kw K_SEMI ";"]) (VNode C_Return [X] None) false.
 Proof.
-  intros kx X [k [v [rest [Ek Hsk0]]]] HE s le stop l0 HS HU _. destruct (RoundTrip.Spell_cons_inv P _ _ _ _ HS) as [t [l2 [-> [Hk [_ HS2]]]]].
+  intros kx X [k [v [rest [Ek Hsk0]]]] HE s le stop l0 HS HU _ Hpre. destruct (RoundTrip.Spell_cons_inv P _ _ _ _ HS) as [t [l2 [-> [Hk [_ HS2]]]]].
   destruct (RoundTrip.Spell_app_inv P _ _ _ HS2) as [lx [l3 [-> [HSx HS3]]]].
   destruct (RoundTrip.Spell_cons_inv P _ _ _ _ HS3) as [sm [l4 [-> [Hsk [_ HS4]]]]]. apply (RoundTrip.Spell_nil_inv P) in HS4. subst l4.
   cbn [app] in HU. rewrite <- app_assoc in HU. cbn [app] in HU.
@@ -507,7 +527,7 @@ Qed.
 Lemma s_if : forall kc Xc kth Xth opth, ExprS P kc Xc -> StmtS kth Xth opth ->
   StmtS0 (kw K_IF "if" :: kw K_LPAREN "(" :: kc ++ kw K_RPAREN ")" :: kth) (VNode C_If [Xc; Xth; VNone] None) true.
 Proof.
-  intros kc Xc kth Xth opth HE HT s le stop l0 HS HU Hop.
+  intros kc Xc kth Xth opth HE HT s le stop l0 HS HU Hop Hpre.
   destruct (RoundTrip.Spell_cons_inv P _ _ _ _ HS) as [t [l1 [-> [Hk [_ HS1]]]]].
   destruct (RoundTrip.Spell_cons_inv P _ _ _ _ HS1) as [lp [l2 [-> [Hlp [_ HS2]]]]].
   destruct (RoundTrip.Spell_app_inv P _ _ _ HS2) as [lc [l3 [-> [HSc HS3]]]].
@@ -520,7 +540,7 @@ Proof.
   destruct (HE s3 lc rpt _ HSc HU3 Hre) as [f1 [Nc [s4 [H4 [HU4 [HNc HL4]]]]]].
   assert (Hrpk: kind_eqb (tk rpt) K_RPAREN = true) by (rewrite Hrp; reflexivity).
   destruct (expect_up P s4 rpt _ K_RPAREN HU4 Hrpk) as [s5 [H5 [HU5 HC5]]].
-  destruct (HT s5 lth stop l0 HSth HU5 (fun _ => Hop eq_refl)) as [f2 [Nth [s6 [H6 [HU6 [HNth HL6]]]]]].
+  destruct (HT s5 lth stop l0 HSth HU5 (fun _ => Hop eq_refl) ltac:(pre_tac)) as [f2 [Nth [s6 [H6 [HU6 [HNth HL6]]]]]].
   destruct (accept_miss P s6 stop l0 K_ELSE HU6 (Hop eq_refl)) as [s7 [H7 [HU7 HC7]]].
   exists (S (S (S (Nat.max f1 f2)))), (mkN P C_If [Nc; Nth; VNone] (Some (mkCoord P (curfile P s7) (tp t)))), s7.
   split; [|split; [exact HU7|split; [unfold mkN; cbn [strip map]; rewrite HNc, HNth; reflexivity|cost_tac]]].
@@ -531,7 +551,7 @@ Qed.
 Lemma s_ifelse : forall kc Xc kth Xth kel Xel opel, ExprS P kc Xc -> StmtS kth Xth false -> StmtS kel Xel opel ->
   StmtS0 (kw K_IF "if" :: kw K_LPAREN "(" :: kc ++ kw K_RPAREN ")" :: kth ++ kw K_ELSE "else" :: kel) (VNode C_If [Xc; Xth; Xel] None) opel.
 Proof.
-  intros kc Xc kth Xth kel Xel opel HE HT HL s le stop l0 HS HU Hop.
+  intros kc Xc kth Xth kel Xel opel HE HT HL s le stop l0 HS HU Hop Hpre.
   destruct (RoundTrip.Spell_cons_inv P _ _ _ _ HS) as [t [l1 [-> [Hk [_ HS1]]]]].
   destruct (RoundTrip.Spell_cons_inv P _ _ _ _ HS1) as [lp [l2 [-> [Hlp [_ HS2]]]]].
   destruct (RoundTrip.Spell_app_inv P _ _ _ HS2) as [lc [l3 [-> [HSc HS3]]]].
@@ -546,10 +566,10 @@ Proof.
   destruct (HE s3 lc rpt _ HSc HU3 Hre) as [f1 [Nc [s4 [H4 [HU4 [HNc HL4]]]]]].
   assert (Hrpk: kind_eqb (tk rpt) K_RPAREN = true) by (rewrite Hrp; reflexivity).
   destruct (expect_up P s4 rpt _ K_RPAREN HU4 Hrpk) as [s5 [H5 [HU5 HC5]]].
-  destruct (HT s5 lth et _ HSth HU5 (fun E => False_ind _ (Bool.diff_false_true E))) as [f2 [Nth [s6 [H6 [HU6 [HNth HL6]]]]]].
+  destruct (HT s5 lth et _ HSth HU5 (fun E => False_ind _ (Bool.diff_false_true E)) ltac:(pre_tac)) as [f2 [Nth [s6 [H6 [HU6 [HNth HL6]]]]]].
   assert (Hetk: kind_eqb (tk et) K_ELSE = true) by (rewrite Hek; reflexivity).
   destruct (accept_hit P s6 et _ K_ELSE HU6 Hetk) as [s7 [H7 [HU7 HC7]]].
-  destruct (HL s7 lel stop l0 HSel HU7 Hop) as [f3 [Nel [s8 [H8 [HU8 [HNel HL8]]]]]].
+  destruct (HL s7 lel stop l0 HSel HU7 Hop ltac:(pre_tac)) as [f3 [Nel [s8 [H8 [HU8 [HNel HL8]]]]]].
   exists (S (S (S (Nat.max f1 (Nat.max f2 f3))))), (mkN P C_If [Nc; Nth; Nel] (Some (mkCoord P (curfile P s8) (tp t)))), s8.
   split; [|split; [exact HU8|split; [unfold mkN; cbn [strip map]; rewrite HNc, HNth, HNel; reflexivity|cost_tac]]].
   intros f Hf. destruct f as [|[|f]]; try lia. rewrite Hd. unfold bind at 1. rewrite H3. unfold bind at 1. rewrite (H4 f) by lia.
@@ -560,7 +580,7 @@ Qed.
 Lemma s_while : forall kc Xc kb Xb opb, ExprS P kc Xc -> StmtS kb Xb opb ->
   StmtS0 (kw K_WHILE "while" :: kw K_LPAREN "(" :: kc ++ kw K_RPAREN ")" :: kb) (VNode C_While [Xc; Xb] None) opb.
 Proof.
-  intros kc Xc kb Xb opb HE HB s le stop l0 HS HU Hop.
+  intros kc Xc kb Xb opb HE HB s le stop l0 HS HU Hop Hpre.
   destruct (RoundTrip.Spell_cons_inv P _ _ _ _ HS) as [t [l1 [-> [Hk [_ HS1]]]]].
   destruct (RoundTrip.Spell_cons_inv P _ _ _ _ HS1) as [lp [l2 [-> [Hlp [_ HS2]]]]].
   destruct (RoundTrip.Spell_app_inv P _ _ _ HS2) as [lc [l3 [-> [HSc HS3]]]].
@@ -573,7 +593,7 @@ Proof.
   destruct (HE s3 lc rpt _ HSc HU3 Hre) as [f1 [Nc [s4 [H4 [HU4 [HNc HL4]]]]]].
   assert (Hrpk: kind_eqb (tk rpt) K_RPAREN = true) by (rewrite Hrp; reflexivity).
   destruct (expect_up P s4 rpt _ K_RPAREN HU4 Hrpk) as [s5 [H5 [HU5 HC5]]].
-  destruct (HB s5 lb stop l0 HSb HU5 Hop) as [f2 [Nb [s6 [H6 [HU6 [HNb HL6]]]]]].
+  destruct (HB s5 lb stop l0 HSb HU5 Hop ltac:(pre_tac)) as [f2 [Nb [s6 [H6 [HU6 [HNb HL6]]]]]].
   exists (S (S (S (Nat.max f1 f2)))), (mkN P C_While [Nc; Nb] (Some (mkCoord P (curfile P s6) (tp t)))), s6.
   split; [|split; [exact HU6|split; [unfold mkN; cbn [strip map]; rewrite HNc, HNb; reflexivity|cost_tac]]].
   intros f Hf. destruct f as [|[|f]]; try lia. rewrite Hd. unfold while_body. unfold bind at 1. rewrite H3. unfold bind at 1. rewrite (H4 f) by lia.
@@ -583,7 +603,7 @@ Qed.
 Lemma s_do : forall kc Xc kb Xb opb, ExprS P kc Xc -> StmtS kb Xb opb ->
   StmtS0 (kw K_DO "do" :: kb ++ kw K_WHILE "while" :: kw K_LPAREN "(" :: kc ++ [kw K_RPAREN ")"; kw K_SEMI ";"]) (VNode C_DoWhile [Xc; Xb] None) false.
 Proof.
-  intros kc Xc kb Xb opb HE HB s le stop l0 HS HU _.
+  intros kc Xc kb Xb opb HE HB s le stop l0 HS HU _ Hpre.
   destruct (RoundTrip.Spell_cons_inv P _ _ _ _ HS) as [t [l1 [-> [Hk [_ HS1]]]]].
   destruct (RoundTrip.Spell_app_inv P _ _ _ HS1) as [lb [l2 [-> [HSb HS2]]]].
   destruct (RoundTrip.Spell_cons_inv P _ _ _ _ HS2) as [wt [l3 [-> [Hwk [_ HS3]]]]].
@@ -594,7 +614,7 @@ Proof.
   cbn [app] in HU. rewrite <- app_assoc in HU. cbn [app] in HU. rewrite <- app_assoc in HU. cbn [app] in HU.
   destruct (do_start s t _ HU Hk) as [s2 [HU2 [HCd Hd]]].
   assert (Hwne: opb = true -> kind_eqb (tk wt) K_ELSE = false) by (intros _; rewrite Hwk; reflexivity).
-  destruct (HB s2 lb wt _ HSb HU2 Hwne) as [f1 [Nb [s3 [H3 [HU3 [HNb HL3]]]]]].
+  destruct (HB s2 lb wt _ HSb HU2 Hwne ltac:(pre_tac)) as [f1 [Nb [s3 [H3 [HU3 [HNb HL3]]]]]].
   assert (Hwkk: kind_eqb (tk wt) K_WHILE = true) by (rewrite Hwk; reflexivity).
   destruct (expect_up P s3 wt _ K_WHILE HU3 Hwkk) as [s4 [H4 [HU4 HC4]]].
   assert (Hlpk: kind_eqb (tk lp) K_LPAREN = true) by (rewrite Hlp; reflexivity).
@@ -641,7 +661,7 @@ Lemma s_for : forall ki Xi kc Xc kn Xn kb Xb opb, OptOK ki Xi -> OptOK kc Xc -> 
   StmtS0 (kw K_FOR "for" :: kw K_LPAREN "(" :: ki ++ kw K_SEMI ";" :: kc ++ kw K_SEMI ";" :: kn ++ kw K_RPAREN ")" :: kb)
         (VNode C_For [Xi; Xc; Xn; Xb] None) opb.
 Proof.
-  intros ki Xi kc Xc kn Xn kb Xb opb Hi Hc Hn HB s le stop l0 HS HU Hop.
+  intros ki Xi kc Xc kn Xn kb Xb opb Hi Hc Hn HB s le stop l0 HS HU Hop Hpre.
   destruct (RoundTrip.Spell_cons_inv P _ _ _ _ HS) as [t [l1 [-> [Hk [_ HS1]]]]].
   destruct (RoundTrip.Spell_cons_inv P _ _ _ _ HS1) as [lp [l2 [-> [Hlp [_ HS2]]]]].
   destruct (RoundTrip.Spell_app_inv P _ _ _ HS2) as [li [l3 [-> [HSi HS3]]]].
@@ -676,7 +696,7 @@ Proof.
   destruct (opt_run kn Xn Hn s6 ln rpt _ HSn HU6 Hre Hrn) as [f3 [Nn [s7 [H7 [HU7 [HNn HL7]]]]]].
   assert (Hrpk: kind_eqb (tk rpt) K_RPAREN = true) by (rewrite Hrp; reflexivity).
   destruct (expect_up P s7 rpt _ K_RPAREN HU7 Hrpk) as [s8 [H8 [HU8 HC8]]].
-  destruct (HB s8 lb stop l0 HSb HU8 Hop) as [f4 [Nb [s9 [H9 [HU9 [HNb HL9]]]]]].
+  destruct (HB s8 lb stop l0 HSb HU8 Hop ltac:(pre_tac)) as [f4 [Nb [s9 [H9 [HU9 [HNb HL9]]]]]].
   exists (S (S (S (Nat.max (Nat.max f1 f2) (Nat.max f3 f4))))), (mkN P C_For [Ni; Nc; Nn; Nb] (Some (mkCoord P (curfile P s9) (tp t)))), s9.
   split; [|split; [exact HU9|split; [unfold mkN; cbn [strip map]; rewrite HNi, HNc, HNn, HNb; reflexivity|cost_tac]]].
   intros f Hf. destruct f as [|[|f]]; try lia. rewrite Hd. unfold for_body. unfold bind at 1. rewrite (H3 f) by lia.
@@ -710,19 +730,19 @@ Proof.
 Qed.
 
 Lemma lbody_run : forall kb Xb opb, StmtS kb Xb opb -> sshead kb ->
-  forall (t: tok) (s: pstate) le (stop: tok) l0, Spell le kb -> Up s (le ++ stop :: l0) -> (opb = true -> kind_eqb (tk stop) K_ELSE = false) ->
+  forall (t: tok) (s: pstate) le (stop: tok) l0, Spell le kb -> Up s (le ++ stop :: l0) -> (opb = true -> kind_eqb (tk stop) K_ELSE = false) -> pre s ->
   exists f0 N s', (forall f, f0 <= f -> StmtShape.lbody P f t s = Ok (N, s')) /\ Up s' (stop :: l0) /\ strip N = Xb /\ Ran P s s' (length le).
 Proof.
-  intros kb Xb opb HB [k [v [rest [Ek Hss]]]] t s le stop l0 HS HU Hop.
+  intros kb Xb opb HB [k [v [rest [Ek Hss]]]] t s le stop l0 HS HU Hop Hpre.
   pose proof HS as HS0. rewrite Ek in HS. destruct (RoundTrip.Spell_cons_inv P _ _ _ _ HS) as [x [tl [El [Hkx [_ _]]]]]. subst le. cbn [app] in HU.
   destruct (peek_kind_up P s x _ HU) as [s1 [H1 [HU1 HC1]]].
   destruct (peek_kind_up P s1 x _ HU1) as [s2 [H2 [HU2 HC2]]].
   unfold ssk in Hss. rewrite <- Hkx in Hss.
   destruct (kind_in (tk x) tbl_STARTS_STATEMENT) eqn:E1.
-  - destruct (HB s1 (x :: tl) stop l0 HS0 HU1 Hop) as [f0 [N [s3 [H3 [HU3 [HN HL3]]]]]].
+  - destruct (HB s1 (x :: tl) stop l0 HS0 HU1 Hop ltac:(pre_tac)) as [f0 [N [s3 [H3 [HU3 [HN HL3]]]]]].
     exists f0, N, s3. split; [|split; [exact HU3|split; [exact HN|cost_tac]]].
     intros f Hf. unfold StmtShape.lbody. unfold bind at 1. unfold starts_statement. unfold bind at 1. rewrite H1. rewrite E1. unfold ret at 1. apply H3. exact Hf.
-  - cbn [orb] in Hss. destruct (HB s2 (x :: tl) stop l0 HS0 HU2 Hop) as [f0 [N [s3 [H3 [HU3 [HN HL3]]]]]].
+  - cbn [orb] in Hss. destruct (HB s2 (x :: tl) stop l0 HS0 HU2 Hop ltac:(pre_tac)) as [f0 [N [s3 [H3 [HU3 [HN HL3]]]]]].
     exists f0, N, s3. split; [|split; [exact HU3|split; [exact HN|cost_tac]]].
     intros f Hf. unfold StmtShape.lbody. unfold bind at 1. unfold starts_statement. unfold bind at 1. rewrite H1. rewrite E1.
     unfold starts_expression. unfold bind at 1. rewrite H2. unfold ret at 1. cbn [okind_in]. rewrite Hss. apply H3. exact Hf.
@@ -731,12 +751,12 @@ Qed.
 Lemma s_label : forall lb kb Xb opb, StmtS kb Xb opb -> sshead kb ->
   StmtS0 ((K_ID, lb) :: kw K_COLON ":" :: kb) (VNode C_Label [VStr lb; Xb] None) opb.
 Proof.
-  intros lb kb Xb opb HB Hh s le stop l0 HS HU Hop.
+  intros lb kb Xb opb HB Hh s le stop l0 HS HU Hop Hpre.
   destruct (RoundTrip.Spell_cons_inv P _ _ _ _ HS) as [t [l1 [-> [Hk [Hv HS1]]]]].
   destruct (RoundTrip.Spell_cons_inv P _ _ _ _ HS1) as [c [l2 [-> [Hc [_ HS2]]]]].
   cbn [app] in HU.
   destruct (label_start s t c _ HU Hk Hc) as [s3 [HU3 [HC3 Hd]]].
-  destruct (lbody_run kb Xb opb HB Hh t s3 l2 stop l0 HS2 HU3 Hop) as [f0 [N [s4 [H4 [HU4 [HN HL4]]]]]].
+  destruct (lbody_run kb Xb opb HB Hh t s3 l2 stop l0 HS2 HU3 Hop ltac:(pre_tac)) as [f0 [N [s4 [H4 [HU4 [HN HL4]]]]]].
   exists (S (S f0)), (mkN P C_Label [VStr (tv t); N] (Some (mkCoord P (curfile P s4) (tp t)))), s4.
   split; [|split; [exact HU4|split; [unfold mkN; cbn [strip map]; rewrite Hv, HN; reflexivity|cost_tac]]].
   intros f Hf. destruct f as [|[|f]]; try lia. rewrite Hd. unfold bind at 1. rewrite (H4 f) by lia. unfold bind at 1. rewrite tcoord_eq. reflexivity.
@@ -754,7 +774,7 @@ Lemma blk_eq : forall f,
            bind P (if sd then p_declaration P f else bind P (p_statement P f) (fun s0 => ret P (stmt_to_items P s0))) (fun items =>
            bind P (p_block_item_list P f) (fun rest => ret P (items ++ rest))))
     end).
-Proof. reflexivity. Qed.
+Proof using P. reflexivity. Qed.
 
 (* what the first token of a statement looks like: no pragma, no `}`, no declaration start, no `else` *)
 Definition sstart (k: kind) : bool :=
@@ -771,48 +791,77 @@ Qed.
 Lemma shead_nopragma : forall kvs, shead kvs -> nopragma kvs.
 Proof. intros kvs [k [v [rest [E H]]]]. exists k, v, rest. split; [exact E|exact (proj1 (sstart_facts k H))]. Qed.
 
+(* a declaration as a block item *)
+Definition DeclS (kvs: list (kind * str)) (X: value unit) : Prop :=
+  forall (s: pstate) le (stop: tok) l0, Spell le kvs -> Up s (le ++ stop :: l0) -> StreamLib.NoTD (scopes P s) ->
+  exists f0 Ns s', (forall f, f0 <= f -> p_declaration P f s = Ok (Ns, s')) /\ Up s' (stop :: l0) /\
+    map (@strip (coord P)) Ns = [X] /\ Ran P s s' (length le).
+Definition dhead (kvs: list (kind * str)) : Prop := exists k v rest, kvs = (k, v) :: rest /\ kind_in k tbl_DECL_START = true.
+Lemma decl_start_facts : forall k, kind_in k tbl_DECL_START = true -> kind_eqb k K_RBRACE = false /\ kind_eqb k K_ELSE = false.
+Proof. intros k H. destruct k; vm_compute in H; try discriminate H; split; reflexivity. Qed.
+
 Definition item_ok (it: list (kind * str) * value unit * bool) : Prop :=
-  let '(kvs, X, op) := it in StmtS0 kvs X op /\ shead kvs /\ exists c fs co, X = VNode c fs co.
+  let '(kvs, X, op) := it in
+  (StmtS0 kvs X op /\ shead kvs /\ exists c fs co, X = VNode c fs co) \/ (dok = true /\ DeclS kvs X /\ dhead kvs).
+
+(* the first token of an item is neither `}` nor `else` *)
+Lemma item_first : forall it, item_ok it -> exists k v rest, fst (fst it) = (k, v) :: rest /\ kind_eqb k K_RBRACE = false /\ kind_eqb k K_ELSE = false.
+Proof.
+  intros [[kvs X] op] [[_ [[k [v [rest [Ek Hsk]]]] _]]|[_ [_ [k [v [rest [Ek Hd]]]]]]]; exists k, v, rest; cbn [fst]; (split; [exact Ek|]).
+  - destruct (sstart_facts k Hsk) as (_ & H1 & _ & H2). split; assumption.
+  - exact (decl_start_facts k Hd).
+Qed.
 
 Lemma blk_run : forall items, Forall item_ok items ->
-  forall (s: pstate) le (rb: tok) rest, Spell le (concat (map (fun it => fst (fst it)) items)) -> Up s (le ++ rb :: rest) -> tk rb = K_RBRACE ->
+  forall (s: pstate) le (rb: tok) rest, Spell le (concat (map (fun it => fst (fst it)) items)) -> Up s (le ++ rb :: rest) -> tk rb = K_RBRACE -> pre s ->
   exists f0 Ns s', (forall f, f0 <= f -> p_block_item_list P f s = Ok (Ns, s')) /\ Up s' (rb :: rest) /\ map strip Ns = map (fun it => snd (fst it)) items /\ Ran P s s' (length le).
 Proof.
-  induction items as [|[[kvs X] op] items IH]; intros HF s le rb rest HS HU Hrb.
+  induction items as [|[[kvs X] op] items IH]; intros HF s le rb rest HS HU Hrb Hpre.
   - apply (RoundTrip.Spell_nil_inv P) in HS. subst le. cbn [app] in HU.
     destruct (peek_kind_up P s rb rest HU) as [s1 [H1 [HU1 HC1]]]. exists 1, [], s1. split; [|split; [exact HU1|split; [reflexivity|cost_tac]]].
     intros f Hf. destruct f as [|f]; [lia|]. rewrite blk_eq. unfold bind at 1. rewrite H1. rewrite Hrb. reflexivity.
-  - inversion HF as [|x y Hit HF']; subst x y. unfold item_ok in Hit. destruct Hit as [H0 [[k [v [rest0 [Ek Hsk]]]] [c [fs [co EX]]]]].
+  - inversion HF as [|x y Hit HF']; subst x y.
+    destruct (item_first _ Hit) as [k [v [rest0 [Ek [Hnrb _]]]]]. cbn [fst] in Ek.
     cbn [map concat fst snd] in HS. destruct (RoundTrip.Spell_app_inv P _ _ _ HS) as [l1 [lr [-> [HS1 HSr]]]].
-    destruct (sstart_facts k Hsk) as (_ & Hnrb & Hnds & _).
     pose proof HS1 as HS1'. rewrite Ek in HS1'. destruct (RoundTrip.Spell_cons_inv P _ _ _ _ HS1') as [t [tl [El [Hkt [_ _]]]]]. subst l1.
     rewrite <- app_assoc in HU. cbn [app] in HU.
     destruct (peek_kind_up P s t _ HU) as [s1 [H1 [HU1 HC1]]].
     destruct (peek_kind_up P s1 t _ HU1) as [s2 [H2 [HU2 HC2]]].
     (* the token after this item: the first token of the next item, or the closing brace - never `else` *)
     assert (Hnext: exists n l', lr ++ rb :: rest = n :: l' /\ kind_eqb (tk n) K_ELSE = false).
-    { destruct items as [|[[kvs2 X2] op2] items'].
+    { destruct items as [|it2 items'].
       - apply (RoundTrip.Spell_nil_inv P) in HSr. subst lr. exists rb, rest. split; [reflexivity|rewrite Hrb; reflexivity].
-      - inversion HF' as [|x y Hit2 _]; subst x y. unfold item_ok in Hit2. destruct Hit2 as [_ [[k2 [v2 [rest2 [Ek2 Hsk2]]]] _]]. cbn [map concat fst snd] in HSr. rewrite Ek2 in HSr. cbn [app] in HSr.
+      - inversion HF' as [|x y Hit2 _]; subst x y. destruct (item_first _ Hit2) as [k2 [v2 [rest2 [Ek2 [_ Hne2]]]]].
+        cbn [map concat] in HSr. rewrite Ek2 in HSr. cbn [app] in HSr.
         destruct (RoundTrip.Spell_cons_inv P _ _ _ _ HSr) as [n [l2 [-> [Hkn [_ _]]]]]. exists n, (l2 ++ rb :: rest). split; [reflexivity|].
-        rewrite Hkn. exact (proj2 (proj2 (proj2 (sstart_facts k2 Hsk2)))). }
+        rewrite Hkn. exact Hne2. }
     destruct Hnext as [n [l' [En Hn]]].
     change (t :: tl ++ lr ++ rb :: rest) with ((t :: tl) ++ lr ++ rb :: rest) in HU2. rewrite En in HU2.
-    destruct (H0 s2 (t :: tl) n l' HS1 HU2 (fun _ => Hn)) as [f1 [N [s3 [H3 [HU3 [HN HL3]]]]]]. rewrite <- En in HU3.
-    destruct (IH HF' s3 lr rb rest HSr HU3 Hrb) as [f2 [Ns [s4 [H4 [HU4 [HNs HL4]]]]]].
-    rewrite EX in HN. destruct (strip_node_inv _ _ _ _ _ HN) as [fs' [co' EN]].
-    exists (S (Nat.max f1 f2)), (N :: Ns), s4. split; [|split; [exact HU4|split; [cbn [map fst snd]; rewrite HNs, HN, EX; reflexivity|cost_tac]]].
-    intros f Hf. destruct f as [|f]; [lia|]. rewrite blk_eq. unfold bind at 1. rewrite H1. rewrite Hkt, Hnrb.
-    unfold bind at 1. unfold starts_declaration. unfold bind at 1. rewrite H2. unfold ret at 1. cbn [okind_in]. rewrite Hkt, Hnds.
-    unfold bind at 1. unfold bind at 1. rewrite (H3 f) by lia. unfold ret at 1. rewrite EN. cbn [stmt_to_items].
-    unfold bind at 1. rewrite (H4 f) by lia. reflexivity.
+    destruct Hit as [[H0 [[k' [v' [rest' [Ek' Hsk]]]] [c [fs [co EX]]]]]|[Hdok [HD [k' [v' [rest' [Ek' Hdk]]]]]]]; rewrite Ek in Ek'; injection Ek' as <- <- <-.
+    + destruct (sstart_facts k Hsk) as (_ & _ & Hnds & _).
+      destruct (H0 s2 (t :: tl) n l' HS1 HU2 (fun _ => Hn) ltac:(pre_tac)) as [f1 [N [s3 [H3 [HU3 [HN HL3]]]]]]. rewrite <- En in HU3.
+      destruct (IH HF' s3 lr rb rest HSr HU3 Hrb ltac:(pre_tac)) as [f2 [Ns [s4 [H4 [HU4 [HNs HL4]]]]]].
+      rewrite EX in HN. destruct (strip_node_inv _ _ _ _ _ HN) as [fs' [co' EN]].
+      exists (S (Nat.max f1 f2)), (N :: Ns), s4. split; [|split; [exact HU4|split; [cbn [map fst snd]; rewrite HNs, HN, EX; reflexivity|cost_tac]]].
+      intros f Hf. destruct f as [|f]; [lia|]. rewrite blk_eq. unfold bind at 1. rewrite H1. rewrite Hkt, Hnrb.
+      unfold bind at 1. unfold starts_declaration. unfold bind at 1. rewrite H2. unfold ret at 1. cbn [okind_in]. rewrite Hkt, Hnds.
+      unfold bind at 1. unfold bind at 1. rewrite (H3 f) by lia. unfold ret at 1. rewrite EN. cbn [stmt_to_items].
+      unfold bind at 1. rewrite (H4 f) by lia. reflexivity.
+    + assert (Hpre2: pre s2) by pre_tac.
+      destruct (HD s2 (t :: tl) n l' HS1 HU2 (pre_notd Hdok s2 Hpre2)) as [f1 [Nd [s3 [H3 [HU3 [HN HL3]]]]]]. rewrite <- En in HU3.
+      destruct (IH HF' s3 lr rb rest HSr HU3 Hrb ltac:(pre_tac)) as [f2 [Ns [s4 [H4 [HU4 [HNs HL4]]]]]].
+      exists (S (Nat.max f1 f2)), (Nd ++ Ns), s4. split; [|split; [exact HU4|split; [rewrite map_app; cbn [map fst snd]; apply (f_equal2 (@app (value unit)) HN HNs)|cost_tac]]].
+      intros f Hf. destruct f as [|f]; [lia|]. rewrite blk_eq. unfold bind at 1. rewrite H1. rewrite Hkt, Hnrb.
+      unfold bind at 1. unfold starts_declaration. unfold bind at 1. rewrite H2. unfold ret at 1. cbn [okind_in]. rewrite Hkt, Hdk.
+      unfold bind at 1. rewrite (H3 f) by lia.
+      unfold bind at 1. rewrite (H4 f) by lia. reflexivity.
 Qed.
 
 Lemma s_block : forall items, Forall item_ok items ->
   StmtS0 (kw K_LBRACE "{" :: concat (map (fun it => fst (fst it)) items) ++ [kw K_RBRACE "}"])
          (VNode C_Compound [match items with [] => VNone | _ => VList (map (fun it => snd (fst it)) items) end] None) false.
 Proof.
-  intros items HF s le stop l0 HS HU _.
+  intros items HF s le stop l0 HS HU _ Hpre.
   destruct (RoundTrip.Spell_cons_inv P _ _ _ _ HS) as [lb [l1 [-> [Hlk [_ HS1]]]]].
   destruct (RoundTrip.Spell_app_inv P _ _ _ HS1) as [li [l2 [-> [HSi HS2]]]].
   destruct (RoundTrip.Spell_cons_inv P _ _ _ _ HS2) as [rb [l3 [-> [Hrk [_ HS3]]]]]. apply (RoundTrip.Spell_nil_inv P) in HS3. subst l3.
@@ -829,20 +878,21 @@ Proof.
     unfold bind at 1. rewrite tcoord_eq. reflexivity.
   - (* the first token of the first item is not `}` *)
     assert (Hfirst: exists t tl, li = t :: tl /\ kind_eqb (tk t) K_RBRACE = false).
-    { inversion HF as [|x y Hit _]; subst x y. destruct it as [[kvs X] op]. unfold item_ok in Hit. destruct Hit as [_ [[k [v [rest0 [Ek Hsk]]]] _]].
-      cbn [map concat fst snd] in HSi. rewrite Ek in HSi. cbn [app] in HSi. destruct (RoundTrip.Spell_cons_inv P _ _ _ _ HSi) as [t [tl [-> [Hkt [_ _]]]]].
-      exists t, tl. split; [reflexivity|rewrite Hkt; exact (proj1 (proj2 (sstart_facts k Hsk)))]. }
+    { inversion HF as [|x y Hit _]; subst x y. destruct (item_first _ Hit) as [k [v [rest0 [Ek [Hnr _]]]]].
+      cbn [map concat] in HSi. rewrite Ek in HSi. cbn [app] in HSi. destruct (RoundTrip.Spell_cons_inv P _ _ _ _ HSi) as [t [tl [-> [Hkt [_ _]]]]].
+      exists t, tl. split; [reflexivity|rewrite Hkt; exact Hnr]. }
     destruct Hfirst as [t [tl [El Hnrb]]]. rewrite El in HU2. cbn [app] in HU2.
     destruct (accept_miss P s2 t _ K_RBRACE HU2 Hnrb) as [s3 [H3 [HU3 HC3]]].
     change (t :: tl ++ rb :: stop :: l0) with ((t :: tl) ++ rb :: stop :: l0) in HU3. rewrite <- El in HU3.
     assert (Hrk': tk rb = K_RBRACE) by exact Hrk.
-    destruct (blk_run (it :: items') HF s3 li rb (stop :: l0) HSi HU3 Hrk') as [f1 [Ns [s4 [H4 [HU4 [HNs HL4]]]]]].
+    destruct (blk_run (it :: items') HF s3 li rb (stop :: l0) HSi HU3 Hrk' ltac:(pre_tac)) as [f1 [Ns [s4 [H4 [HU4 [HNs HL4]]]]]].
     destruct (expect_up P s4 rb _ K_RBRACE HU4 Hrbk) as [s5 [H5 [HU5 HC5]]].
     exists (S (S f1)), (mkN P C_Compound [VList Ns] (Some (mkCoord P (curfile P s5) (tp lb)))), s5. split; [|split; [exact HU5|split; [unfold mkN; cbn [strip map]; rewrite HNs; reflexivity|cost_tac]]].
     intros f Hf. destruct f as [|[|f]]; try lia. rewrite Hd. rewrite (compound_eq P). unfold bind at 1. rewrite H2. unfold bind at 1. rewrite H3.
     unfold bind at 1. rewrite (H4 f) by lia. unfold bind at 1. rewrite H5. unfold bind at 1. rewrite tcoord_eq. reflexivity.
 Qed.
 End PS.
+Unset Default Proof Using.
 
 (* ---- the first tokens of a generated expression ---- *)
 Lemma good2_app : forall x y, good2 x -> good2 (x ++ y).
@@ -932,6 +982,11 @@ Proof. intros k H. destruct k; vm_compute in H; try discriminate H; reflexivity.
 Section MainS.
 Variable P : Type.
 Variable rp : bool.
+Variable pre : ParserBase.pstate P -> Prop.
+Hypothesis pre_SC : forall s s', pre s -> SC P s s' -> pre s'.
+Variable dok : bool.
+Hypothesis pre_notd : dok = true -> forall s, pre s -> StreamLib.NoTD (scopes P s).
+Notation swf := (swfd dok).
 
 Lemma opt_ok : forall o, owf o -> OptOK P (oxt rp o) (oemb o).
 Proof.
@@ -942,18 +997,20 @@ Qed.
 
 Lemma stoks_head : forall x, swf x -> shead (stoks rp x).
 Proof.
-  intros x Hw. destruct x as [e| |o| | |l|c th el|c b|b c|i c nx b|items|lb b]; cbn [stoks];
+  intros x Hw. destruct x as [e| |o| | |l|c th el|c b|b c|i c nx b|items|lb b|ty dx di]; cbn [stoks];
+    try (cbn [swfd] in Hw; contradiction);
     try (eexists; eexists; eexists; split; [reflexivity|reflexivity]).
-  cbn [swf] in Hw. destruct (xt_head rp (size e) e (le_n _) Hw [kw K_SEMI ";"] (ncolon_cons K_SEMI (s2l ";") [] eq_refl)) as [k [v [rest [Ek [Hes _]]]]].
+  cbn [swfd] in Hw. destruct (xt_head rp (size e) e (le_n _) Hw [kw K_SEMI ";"] (ncolon_cons K_SEMI (s2l ";") [] eq_refl)) as [k [v [rest [Ek [Hes _]]]]].
   exists k, v, rest. split; [exact Ek|apply estart_sstart; exact Hes].
 Qed.
 
 (* ... and can follow a label *)
 Lemma stoks_ss : forall x, swf x -> sshead (stoks rp x).
 Proof.
-  intros x Hw. destruct x as [e| |o| | |l|c th el|c b|b c|i c nx b|items|lb b]; cbn [stoks];
+  intros x Hw. destruct x as [e| |o| | |l|c th el|c b|b c|i c nx b|items|lb b|ty dx di]; cbn [stoks];
+    try (cbn [swfd] in Hw; contradiction);
     try (eexists; eexists; eexists; split; [reflexivity|reflexivity]).
-  cbn [swf] in Hw. destruct (xt_sestart rp e Hw) as [k [v [rest [Ek Hse]]]].
+  cbn [swfd] in Hw. destruct (xt_sestart rp e Hw) as [k [v [rest [Ek Hse]]]].
   exists k, v, (rest ++ [kw K_SEMI ";"]). split; [rewrite Ek; reflexivity|]. unfold ssk. unfold sestart in Hse. rewrite Hse. apply orb_true_r.
 Qed.
 
@@ -966,39 +1023,70 @@ Proof.
   destruct H as [E|H]; [subst a; lia|]. specialize (IH a H). lia.
 Qed.
 
-Theorem S_all : forall n x, ssize x <= n -> swf x -> StmtS0 P (stoks rp x) (embs x) (sopen x).
+(* a declaration `T x;` / `T x = e;` as a block item *)
+Lemma decl_item : forall ty x i, dwf dok ty x i ->
+  dok = true /\ DeclS P (stoks rp (SDecl ty x i)) (embs (SDecl ty x i)) /\ dhead (stoks rp (SDecl ty x i)).
+Proof.
+  intros ty x i (Hd & Hne & HF & Hi & _). split; [exact Hd|]. split.
+  - cbn [stoks embs]. intros s le stop l0 HS HU HN.
+    apply (decl_run P ty x (match i with Some e => (K_EQUALS, s2l "=") :: argt rp e | None => [] end) (oemb i) Hne HF); try assumption.
+    destruct i as [e|]; [|left; split; reflexivity]. right. cbn [owf] in Hi. pose proof (T_all P rp (size e) e (le_n _) Hi) as HT.
+    exists (argt rp e). split; [reflexivity|]. split; [exact (T_asg_argt P rp e HT)|exact (T_first_argt P rp e HT)].
+  - cbn [stoks]. unfold dtoks. destruct ty as [|[k v] ty']; [congruence|]. exists k, v, (ty' ++ (K_ID, x) :: (match i with Some e => (K_EQUALS, s2l "=") :: argt rp e | None => [] end) ++ [(K_SEMI, s2l ";")]).
+    split; [reflexivity|]. pose proof (Forall_inv HF) as Hk. cbn [fst] in Hk. exact (proj2 (proj2 (proj2 (simple_kind_facts k Hk)))).
+Qed.
+
+Theorem S_all : forall n x, ssize x <= n -> swf x -> StmtS0 P pre (stoks rp x) (embs x) (sopen x).
 Proof.
   induction n as [|n IH]; intros x Hn Hw; [destruct x; cbn in Hn; lia|].
   assert (HEx: forall e, wf e -> ExprS P (xt rp e) (embx e)) by (intros e He; exact (T_expr P rp e (T_all P rp (size e) e (le_n _) He))).
-  assert (IHs: forall y, ssize y <= n -> swf y -> StmtS P (stoks rp y) (embs y) (sopen y)).
-  { intros y Hy Hwy. apply s0_to_s; [apply shead_nopragma; apply stoks_head; exact Hwy|apply IH; assumption]. }
-  destruct x as [e| |o| | |l|c th el|c b|b c|i c nx b|items|lb b]; cbn [ssize] in Hn; cbn [swf] in Hw; cbn [stoks embs sopen].
-  - destruct (embx_node e) as [cc [fs [co EX]]]. eapply s_expr; [exact EX|apply HEx; exact Hw|].
+  assert (IHs: forall y, ssize y <= n -> swf y -> StmtS P pre (stoks rp y) (embs y) (sopen y)).
+  { intros y Hy Hwy. apply (s0_to_s P pre pre_SC dok pre_notd); [apply (shead_nopragma P pre pre_SC dok pre_notd); apply stoks_head; exact Hwy|apply IH; assumption]. }
+  destruct x as [e| |o| | |l|c th el|c b|b c|i c nx b|items|lb b|ty dx di]; cbn [ssize] in Hn; cbn [swfd] in Hw; cbn [stoks embs sopen].
+  - destruct (embx_node e) as [cc [fs [co EX]]]. eapply (s_expr P pre pre_SC dok pre_notd); [exact EX|apply HEx; exact Hw|].
     apply (xt_head rp (size e) e (le_n _) Hw). apply ncolon_cons. reflexivity.
-  - apply s_empty.
-  - destruct o as [e|]; cbn [oxt oemb owf] in *; [|apply s_return0].
-    apply s_return1; [apply xt_sestart; exact Hw|apply HEx; exact Hw].
-  - apply s_break.
-  - apply s_continue.
-  - apply s_goto.
+  - apply (s_empty P pre pre_SC dok pre_notd).
+  - destruct o as [e|]; cbn [oxt oemb owf] in *; [|apply (s_return0 P pre pre_SC dok pre_notd)].
+    apply (s_return1 P pre pre_SC dok pre_notd); [apply xt_sestart; exact Hw|apply HEx; exact Hw].
+  - apply (s_break P pre pre_SC dok pre_notd).
+  - apply (s_continue P pre pre_SC dok pre_notd).
+  - apply (s_goto P pre pre_SC dok pre_notd).
   - destruct Hw as (Hc & Hth & Hel). destruct el as [el|].
     + destruct Hel as (Hcl & Hwel). pose proof (IHs th ltac:(lia) Hth) as HT. rewrite Hcl in HT.
-      apply s_ifelse; [apply HEx; exact Hc|exact HT|apply IHs; [lia|exact Hwel]].
-    + rewrite app_nil_r. eapply s_if; [apply HEx; exact Hc|apply IHs; [lia|exact Hth]].
-  - destruct Hw as (Hc & Hb). apply s_while; [apply HEx; exact Hc|apply IHs; [lia|exact Hb]].
-  - destruct Hw as (Hb & Hc). eapply s_do; [apply HEx; exact Hc|apply IHs; [lia|exact Hb]].
-  - destruct Hw as (Hi & Hc & Hnx & Hb). apply s_for; [apply opt_ok; exact Hi|apply opt_ok; exact Hc|apply opt_ok; exact Hnx|apply IHs; [lia|exact Hb]].
+      apply (s_ifelse P pre pre_SC dok pre_notd); [apply HEx; exact Hc|exact HT|apply IHs; [lia|exact Hwel]].
+    + rewrite app_nil_r. eapply (s_if P pre pre_SC dok pre_notd); [apply HEx; exact Hc|apply IHs; [lia|exact Hth]].
+  - destruct Hw as (Hc & Hb). apply (s_while P pre pre_SC dok pre_notd); [apply HEx; exact Hc|apply IHs; [lia|exact Hb]].
+  - destruct Hw as (Hb & Hc). eapply (s_do P pre pre_SC dok pre_notd); [apply HEx; exact Hc|apply IHs; [lia|exact Hb]].
+  - destruct Hw as (Hi & Hc & Hnx & Hb). apply (s_for P pre pre_SC dok pre_notd); [apply opt_ok; exact Hi|apply opt_ok; exact Hc|apply opt_ok; exact Hnx|apply IHs; [lia|exact Hb]].
   - (* block *)
-    assert (HF: Forall (item_ok P) (map (fun y => (stoks rp y, embs y, sopen y)) items)).
+    assert (HF: Forall (item_ok P pre dok) (map (fun y => (stoks rp y, embs y, sopen y)) items)).
     { apply Forall_forall. intros it Hin. apply in_map_iff in Hin. destruct Hin as [y [<- Hy]].
-      assert (Hwy: swf y).
+      assert (Hwy: bwfd dok y).
       { clear -Hw Hy. induction items as [|z r IHr]; [destruct Hy|]. destruct Hw as [Hz Hr]. destruct Hy as [->|Hy]; [exact Hz|apply IHr; assumption]. }
-      unfold item_ok. split; [apply IH; [pose proof (in_ssum items y Hy); lia|exact Hwy]|]. split; [apply stoks_head; exact Hwy|apply embs_node]. }
-    pose proof (s_block P _ HF) as HB. rewrite !map_map in HB. cbn [fst snd] in HB.
+      unfold item_ok. destruct y as [e| |o| | |l|c th el|c b|b c|i c nx b|items2|lb b|ty dx di];
+        try (left; cbn [bwfd] in Hwy; split; [apply IH; [pose proof (in_ssum items _ Hy); lia|exact Hwy]|]; split; [apply stoks_head; exact Hwy|apply embs_node]).
+      right. cbn [bwfd] in Hwy. cbn [sopen]. exact (decl_item ty dx di Hwy). }
+    pose proof (s_block P pre pre_SC dok pre_notd _ HF) as HB. rewrite !map_map in HB. cbn [fst snd] in HB.
     destruct items as [|y r]; exact HB.
   - (* label *)
-    apply s_label; [apply IHs; [lia|exact Hw]|apply stoks_ss; exact Hw].
+    apply (s_label P pre pre_SC dok pre_notd); [apply IHs; [lia|exact Hw]|apply stoks_ss; exact Hw].
+  - contradiction.
 Qed.
+End MainS.
+
+(* ---- the theorems ---- *)
+Section Thms.
+Variable P : Type.
+Variable rp : bool.
+
+Lemma pre_true_SC : forall s s' : ParserBase.pstate P, True -> SC P s s' -> True.
+Proof. intros; exact I. Qed.
+Lemma pre_true_notd : false = true -> forall s : ParserBase.pstate P, True -> StreamLib.NoTD (scopes P s).
+Proof. intros H; discriminate H. Qed.
+Lemma pre_notd_SC : forall s s' : ParserBase.pstate P, StreamLib.NoTD (scopes P s) -> SC P s s' -> StreamLib.NoTD (scopes P s').
+Proof. intros s s' H Hsc. exact (Hsc H). Qed.
+Lemma pre_notd_notd : true = true -> forall s : ParserBase.pstate P, StreamLib.NoTD (scopes P s) -> StreamLib.NoTD (scopes P s).
+Proof. intros _ s H. exact H. Qed.
 
 (* parse . generate = id, token level: every statement, as a block item and in a sub-statement position - with the
    cost of the parse: exactly the generated tokens are consumed, next() is called at most three times per token *)
@@ -1007,14 +1095,18 @@ Theorem parse_of_generated_statement_cost : forall x, swf x ->
   (sopen x = true -> kind_eqb (tk stop) K_ELSE = false) ->
   exists f0 N s', (forall f, f0 <= f -> p_pragmacomp_or_statement P f s = Ok (N, s')) /\ StreamLib.Up P s' (stop :: l0) /\ strip N = embs x /\
     StreamLib.Ran P s s' (length le).
-Proof. intros x Hw. apply s0_to_s; [apply shead_nopragma; apply stoks_head; exact Hw|exact (S_all (ssize x) x (le_n _) Hw)]. Qed.
+Proof.
+  intros x Hw s le stop l0 HS HU Hop.
+  refine (s0_to_s P (fun _ => True) pre_true_SC false pre_true_notd _ _ _ _ (S_all P rp (fun _ => True) pre_true_SC false pre_true_notd (ssize x) x (le_n _) Hw) s le stop l0 HS HU Hop I).
+  apply (shead_nopragma P (fun _ => True) pre_true_SC false pre_true_notd). apply (stoks_head rp false). exact Hw.
+Qed.
 
 Theorem parse_of_generated_block_item_cost : forall x, swf x ->
   forall (s: ParserBase.pstate P) le stop l0, RoundTrip.Spell P le (stoks rp x) -> StreamLib.Up P s (le ++ stop :: l0) ->
   (sopen x = true -> kind_eqb (tk stop) K_ELSE = false) ->
   exists f0 N s', (forall f, f0 <= f -> p_statement P f s = Ok (N, s')) /\ StreamLib.Up P s' (stop :: l0) /\ strip N = embs x /\
     StreamLib.Ran P s s' (length le).
-Proof. intros x Hw. exact (S_all (ssize x) x (le_n _) Hw). Qed.
+Proof. intros x Hw s le stop l0 HS HU Hop. exact (S_all P rp (fun _ => True) pre_true_SC false pre_true_notd (ssize x) x (le_n _) Hw s le stop l0 HS HU Hop I). Qed.
 
 Theorem parse_of_generated_statement : forall x, swf x ->
   forall (s: ParserBase.pstate P) le stop l0, RoundTrip.Spell P le (stoks rp x) -> StreamLib.Up P s (le ++ stop :: l0) ->
@@ -1033,4 +1125,45 @@ Proof.
   intros x Hw s le stop l0 HS HU Hop. destruct (parse_of_generated_block_item_cost x Hw s le stop l0 HS HU Hop) as [f0 [N [s' [H [HU' [HN _]]]]]].
   exists f0, N, s'. split; [exact H|split; [exact HU'|exact HN]].
 Qed.
-End MainS.
+
+(* ... and the same for statements whose blocks declare objects (`T x;`, `T x = e;` as block items, at any depth), from
+   every parser state whose scope stack holds no typedef name: the declared names enter the innermost scope as ordinary
+   identifiers, the tree has one Decl per declaration in source order, and the cost bound is the same *)
+Theorem parse_of_generated_statement_with_decls_cost : forall x, swfD x ->
+  forall (s: ParserBase.pstate P) le stop l0, RoundTrip.Spell P le (stoks rp x) -> StreamLib.Up P s (le ++ stop :: l0) ->
+  (sopen x = true -> kind_eqb (tk stop) K_ELSE = false) -> StreamLib.NoTD (scopes P s) ->
+  exists f0 N s', (forall f, f0 <= f -> p_statement P f s = Ok (N, s')) /\ StreamLib.Up P s' (stop :: l0) /\ strip N = embs x /\
+    StreamLib.Ran P s s' (length le).
+Proof.
+  intros x Hw s le stop l0 HS HU Hop HN.
+  exact (S_all P rp (fun s => StreamLib.NoTD (scopes P s)) pre_notd_SC true pre_notd_notd (ssize x) x (le_n _) Hw s le stop l0 HS HU Hop HN).
+Qed.
+Theorem parse_of_generated_statement_with_decls : forall x, swfD x ->
+  forall (s: ParserBase.pstate P) le stop l0, RoundTrip.Spell P le (stoks rp x) -> StreamLib.Up P s (le ++ stop :: l0) ->
+  (sopen x = true -> kind_eqb (tk stop) K_ELSE = false) -> StreamLib.NoTD (scopes P s) ->
+  exists f0 N s', (forall f, f0 <= f -> p_statement P f s = Ok (N, s')) /\ StreamLib.Up P s' (stop :: l0) /\ strip N = embs x /\
+    StreamLib.NoTD (scopes P s').
+Proof.
+  intros x Hw s le stop l0 HS HU Hop HN. destruct (parse_of_generated_statement_with_decls_cost x Hw s le stop l0 HS HU Hop HN) as [f0 [N [s' [H [HU' [HN' [_ [_ Hsc]]]]]]]].
+  exists f0, N, s'. split; [exact H|split; [exact HU'|split; [exact HN'|exact (Hsc HN)]]].
+Qed.
+
+Theorem statements_with_decls_linear : forall x, swfD x ->
+  forall (s: ParserBase.pstate P) le stop l0, RoundTrip.Spell P le (stoks rp x) -> StreamLib.Up P s (le ++ stop :: l0) ->
+  (sopen x = true -> kind_eqb (tk stop) K_ELSE = false) -> StreamLib.NoTD (scopes P s) ->
+  exists f0 N s', (forall f, f0 <= f -> p_statement P f s = Ok (N, s')) /\ StreamLib.Up P s' (stop :: l0) /\
+    idx P s' = idx P s + length le /\ N.to_nat (ticks P s') <= N.to_nat (ticks P s) + 3 * length le.
+Proof.
+  intros x Hw s le stop l0 HS HU Hop HN. destruct (parse_of_generated_statement_with_decls_cost x Hw s le stop l0 HS HU Hop HN) as [f0 [N [s' [H [HU' [_ [Hi [Ht _]]]]]]]].
+  exists f0, N, s'. split; [exact H|split; [exact HU'|split; [exact Hi|exact Ht]]].
+Qed.
+
+Theorem statements_with_decls_accepted : forall x, swfD x ->
+  forall (s: ParserBase.pstate P) le stop l0, RoundTrip.Spell P le (stoks rp x) -> StreamLib.Up P s (le ++ stop :: l0) ->
+  (sopen x = true -> kind_eqb (tk stop) K_ELSE = false) -> StreamLib.NoTD (scopes P s) ->
+  exists f0 N s', forall f, f0 <= f -> p_statement P f s = Ok (N, s').
+Proof.
+  intros x Hw s le stop l0 HS HU Hop HN. destruct (parse_of_generated_statement_with_decls_cost x Hw s le stop l0 HS HU Hop HN) as [f0 [N [s' [H _]]]].
+  exists f0, N, s'. exact H.
+Qed.
+End Thms.
